@@ -9,9 +9,11 @@ resize machine the driver `c01_model` executes) against `Unsized/Spec.lean` (the
 Vocabulary: `Inv s vs ms` = the machine state `ms` holds exactly the canonical serialization
 `encode s vs.val` of the model value (so `owned()`, a fresh shared view and every live accessor — all
 functions of the bytes and the accessor paths — show the model value), the same accessors are live, and
-there is headroom (`Calm`: no scheduled refusal, allocation below 4 GiB). `CmdOk` = the line is covered:
-its (node kind, op) pair is `Supported`, a successful model step stays below `orig + 10240`, and a failing
-one is not one of the registered known-finding classes.
+there is headroom (`Calm`: no scheduled refusal, allocation below 4 GiB). `CmdOk` = the (decidable) side
+conditions of one line: a successful model step stays below `orig + 10240`, and a failing one is not one of
+the two registered known-finding classes (an initialiser failing behind the resize, a composite op failing
+half-way — both refuted at full strength by the witnesses in `Props/C06.lean`). EVERY op of the op language
+on EVERY node kind at ANY nesting depth is covered: there is no restriction on shapes, values, paths or ops.
 -/
 namespace Unsized.C01
 open Common Unsized Unsized.Text Unsized.Machine
@@ -26,20 +28,10 @@ theorem load_inv (s : Shape) (v : Val) (hok : s.ok = true) (hwf : WF s v = true)
   exact ⟨⟨⟨true, false, hok⟩, hwf.1, hwf.2⟩, rfl, rfl,
     ⟨rfl, by simpa [load, State.init] using hsmall, by simp [load, State.init]⟩⟩
 
-/-
-FULL STATEMENT (`step_refines`): for every shape `s`, `WF` value, accessor stack, and EVERY op line, the
-machine step has the outcome (`ok ret` / `err class`) of `Spec.applyOp`, and on `ok v'`:
-`bytes' = encode s v'`, `len' = size s v'`, `WF s v'`. Proved below for all `Supported` (node kind, op)
-pairs — every op on `fixed`, `list`, `set`, `map`, `str`, `rem`, `struct`, `enum` nodes and `touch`/`replace`/`reset`
-on every node kind, at ANY nesting depth below structs, enums, `UnsizedList`s and `UnsizedMap`s (the path
-induction `notify_plug` is complete). Missing: the container-local byte algebra of `set`/`map` (binary
-search vs `insKey`) and of `ulist`/`umap` insert/remove (offset-table memmove) — see notes/C01_machine.md.
--/
-
-/-- **One op line** (any nesting depth, any live accessor stack): the machine produces exactly the
-outcome and `ret` of the owned model, and afterwards again holds the canonical serialization of the
+/-- **One op line** — every op of the op language, every shape, any nesting depth, any live accessor
+stack: the machine produces exactly the outcome (`ok`/`err` class) and `ret` of the owned model, and afterwards again holds the canonical serialization of the
 model's value with exact length; well-formedness is preserved. -/
-theorem step_refines_partial (s : Shape) (vs : VState) (ms : State) (inv : Inv s vs ms) (cmd : Cmd)
+theorem step_refines (s : Shape) (vs : VState) (ms : State) (inv : Inv s vs ms) (cmd : Cmd)
     (hcmd : CmdOk s vs ms.mem.orig cmd) :
     (step s ms cmd).2 = (stepV s vs cmd).2
     ∧ (step s ms cmd).1.mem.bytes = encode s (stepV s vs cmd).1.val
@@ -51,9 +43,9 @@ theorem step_refines_partial (s : Shape) (vs : VState) (ms : State) (inv : Inv s
   · rw [h2.bytes, encode_size_all _ _ h2.good.valid]
   · simp [WF, h2.good.valid, h2.good.fits]
 
-/-- **Any finite history** of covered lines from the case header: the outcomes agree line by line and
+/-- **Any finite history** from the case header (side conditions `HistOk` = `CmdOk` at every line): the outcomes agree line by line and
 the final buffer is the canonical serialization of the model's final value. -/
-theorem history_refines_partial (s : Shape) (v : Val) (hok : s.ok = true) (hwf : WF s v = true)
+theorem history_refines (s : Shape) (v : Val) (hok : s.ok = true) (hwf : WF s v = true)
     (hsmall : (encode s v).length + maxIncrease < Shape.u32Lim) (cmds : List Cmd)
     (hh : HistOk s (encode s v).length ⟨v, [[]]⟩ cmds) :
     (runM s (load s v) cmds).2 = (runS s ⟨v, [[]]⟩ cmds).2
@@ -102,8 +94,8 @@ theorem step_is_subst (s : Shape) (v : Val) (p : List Step) (op : Op) (v' : Val)
       exact ⟨t, u, u', rfl, h.1.symm⟩
 
 /-- **Key-ordered containers stay strictly sorted and duplicate free**: in every state reached by a
-covered history, every `Set`, `Map` and `UnsizedMap` anywhere in the value has strictly increasing keys. -/
-theorem sorted_preserved_partial (s : Shape) (vs : VState) (ms : State) (inv : Inv s vs ms) (cmds : List Cmd)
+history, every `Set`, `Map` and `UnsizedMap` anywhere in the value has strictly increasing keys. -/
+theorem sorted_preserved (s : Shape) (vs : VState) (ms : State) (inv : Inv s vs ms) (cmds : List Cmd)
     (hh : HistOk s ms.mem.orig vs cmds) (q : List Step) (t : Shape) (u : Val)
     (hq : resolve s (runS s vs cmds).1.val q = .ok (t, u)) :
     (∀ e lw es, t = .set e lw → u = .seq es → strictKeys (es.map (keyOf e.size)) = true)
@@ -135,7 +127,7 @@ def exH : List Cmd := [
   .leave, .reborrow,
   .op [.field 2, .payload] (.push [1, 2])]
 
-/-- The hypotheses of `history_refines_partial` are satisfiable by this history … -/
+/-- The hypotheses of `history_refines` are satisfiable by this history … -/
 example : exS.ok = true ∧ WF exS exV = true ∧ (encode exS exV).length + maxIncrease < Shape.u32Lim
     ∧ HistOk exS (encode exS exV).length ⟨exV, [[]]⟩ exH :=
   ⟨by decide, by decide +kernel, by decide +kernel, by unfold HistOk; decide +kernel⟩
@@ -144,7 +136,7 @@ example : exS.ok = true ∧ WF exS exV = true ∧ (encode exS exV).length + maxI
 example : (runM exS (load exS exV) exH).2.map (fun r => r.toBool)
     = [false, true, true, true, true, true, true, true, true, true, true] := by decide +kernel
 
-/-- `step_refines_partial` applies to the state after the header (non-vacuity of `Inv`/`CmdOk`). -/
+/-- `step_refines` applies to the state after the header (non-vacuity of `Inv`/`CmdOk`). -/
 example : CmdOk exS ⟨exV, [[]]⟩ (load exS exV).mem.orig (.op [.field 1, .elem 0, .field 0] (.push [9])) := by
   unfold CmdOk; decide +kernel
 
